@@ -234,3 +234,71 @@ Proof.
     destruct (t_off t0 + t_len t0 <=? length l); reflexivity.
   - destruct (nth_error (s_tens s) t); [|reflexivity]. destruct (read_tensor (s_fs s) t0); reflexivity.
 Qed.
+
+(* ---- the table of external tensors: only release (unmap) and invalidate touch it *)
+Definition trel (t' t : tstate) : Prop :=
+  t_path t' = t_path t /\ t_off t' = t_off t /\ t_len t' = t_len t /\ t_valid t' = t_valid t
+  /\ (t_map t' = t_map t \/ t_map t' = None).
+
+Lemma trel_refl t : trel t t.
+Proof. unfold trel. repeat split; auto. Qed.
+
+Lemma Forall2_upd {A B} (R : A -> B -> Prop) (f : A -> A) :
+  (forall x y, R x y -> R (f x) y) ->
+  forall l l0 i, Forall2 R l l0 -> Forall2 R (upd l i f) l0.
+Proof.
+  intros Hf l l0 i H. revert i. induction H as [|x y l l0 Hxy H IH]; intros i; simpl; [constructor|].
+  destruct i; constructor; auto.
+Qed.
+
+Lemma sem_tens a s :
+  is_invalidate a = false ->
+  s_tens (fst (sem a s)) = s_tens s
+  \/ exists t, s_tens (fst (sem a s)) = upd (s_tens s) t (fun x => set_map x None).
+Proof.
+  intros Ha.
+  destruct a as [p|p|d|p q|p|i raises|off|d| | |t|t|p|src dst|src dst|p|p| |t|t rel n|t|t| ]; simpl in *;
+    try (left; reflexivity); try discriminate.
+  - left. destruct (lookup (s_fs s) d); [|destruct (parent_ok (s_fs s) d)]; reflexivity.
+  - left. destruct (lookup (s_fs s) (resolve (s_fs s) p)) as [[| |]|]; [| | |destruct (parent_ok (s_fs s) (resolve (s_fs s) p))];
+      reflexivity.
+  - left. destruct (s_fd s); reflexivity.
+  - left. apply do_write_tens.
+  - left. apply do_write_tens.
+  - right. exists t. reflexivity.
+  - left. destruct (file_at (s_fs s) src) as [[? ?]|]; [destruct (lookup (s_fs s) (resolve (s_fs s) dst)) as [[| |]|]|];
+      reflexivity.
+  - left. destruct (lookup (s_fs s) src) as [[| |]|]; [destruct (lookup (s_fs s) dst) as [[| |]|]| | |]; reflexivity.
+  - left. destruct (lookup (s_fs s) p) as [[| |]|]; reflexivity.
+  - left. destruct (lookup (s_fs s) p) as [[| |]|]; [|destruct (has_child (s_fs s) p)| |]; reflexivity.
+  - left. destruct (nth_error (s_tens s) t); [|reflexivity]. destruct (negb (t_valid t0)); [reflexivity|].
+    destruct (file_at (s_fs s) (t_path t0)); reflexivity.
+  - left. destruct (nth_error (s_tens s) t); [|reflexivity].
+    destruct (file_at (s_fs s) (t_path t0)) as [[? ?]|]; [|reflexivity].
+    destruct (slice l (t_off t0 + rel) n); reflexivity.
+  - left. destruct (nth_error (s_tens s) t); [|reflexivity].
+    destruct (file_at (s_fs s) (t_path t0)) as [[? ?]|]; [|reflexivity].
+    destruct (t_off t0 + t_len t0 <=? length l); reflexivity.
+  - left. destruct (nth_error (s_tens s) t); [|reflexivity]. destruct (read_tensor (s_fs s) t0); reflexivity.
+Qed.
+
+Lemma sem_trel tens a s :
+  is_invalidate a = false -> Forall2 trel (s_tens s) tens -> Forall2 trel (s_tens (fst (sem a s))) tens.
+Proof.
+  intros Ha H. destruct (sem_tens a s Ha) as [E|(t & E)]; rewrite E; [exact H|].
+  apply Forall2_upd; [|exact H]. intros x y (H1 & H2 & H3 & H4 & H5). unfold trel. simpl. repeat split; auto.
+Qed.
+
+(* a tensor related to its initial state reads the same bytes from the same file system, provided its
+   initial mapping (if any) showed the file's content *)
+Lemma read_trel fs t' t :
+  trel t' t ->
+  (forall d, t_map t = Some d -> exists m, file_at fs (t_path t) = Some (d, m)) ->
+  read_tensor fs t' = read_tensor fs t.
+Proof.
+  intros (H1 & H2 & H3 & H4 & H5) Hc. unfold read_tensor. rewrite H1, H2, H3, H4.
+  destruct (negb (t_valid t)); [reflexivity|].
+  destruct H5 as [E|E]; rewrite E; [reflexivity|].
+  destruct (t_map t) as [d|] eqn:Em; [|reflexivity].
+  destruct (Hc d eq_refl) as (m & Hf). rewrite Hf. reflexivity.
+Qed.
